@@ -437,4 +437,20 @@ def backs (a : AuthzSpec) (id : Identifier) : Bool :=
      a.wildcard == isWildcard id.value && Str.lower a.value == Str.lower (trimIfWildcard id.value)
    else a.wildcard == false && Str.lower a.value == Str.lower id.value)
 
+/-- the DNS names among the SANs -/
+def dnsOf : San → Option Str
+  | .dns v => some v
+  | _ => none
+
+/-- provisioner option forceCN (authority/provisioner/sign_options.go, forceCNOption.Modify), applied
+    by the authority to the certificate the template produced: an empty common name becomes the
+    first DNS name of the certificate, whole; `none`: there is no DNS name ("cannot force common
+    name, DNS names is empty"), the authority refuses to sign -/
+def forceCommonName (force : Bool) (cn : Str) (sans : List San) : Option Str :=
+  if force && cn == [] then
+    match sans.filterMap dnsOf with
+    | [] => none
+    | d :: _ => some d
+  else some cn
+
 end Verif.AcmeSans
